@@ -49,8 +49,8 @@ FLOORS = {
     'order:years-differ+tz': (0.10, 'order:case'), 'arith:crosses-year': (0.20, 'arith:case'),
     'ym:clamped': (0.10, 'arith:ym'), 'ref:judged': (0.70, 'dt:case'), 'ym:in-range': (0.25, 'arith:ym'),
     'dur:order-incomparable': (0.05, 'dur:duration'), 'xorder:implicit-tz': (0.03, 'xpath:case'),
-    'adjyears:swapped-or-equal': (0.08, 'order:case'), 'adjyears:era:swapped-or-equal': (0.015, 'order:case'),
-    'xadjyears:swapped-or-equal': (0.05, 'xpath:case'), 'xadjyears:era:swapped-or-equal': (0.01, 'xpath:case'),
+    'adjyears:swapped-or-equal': (0.04, 'order:case'), 'adjyears:era:swapped-or-equal': (0.012, 'order:case'),
+    'xadjyears:swapped-or-equal': (0.03, 'xpath:case'), 'xadjyears:era:swapped-or-equal': (0.01, 'xpath:case'),
     'diff-adjyears:era': (0.02, 'arith:case'), 'adjhist:no-arith': (0.5, 'adjhist:case'), 'minmax:judged': (0.3, 'xpath:case'),
 }
 
@@ -202,9 +202,9 @@ def _boundary_pair(draw, xsd, t, itz=0):
 
 
 @st.composite
-def _pair(draw, xsd, t, itz=0):
+def _pair(draw, xsd, t, itz=0, dense=False):
     """the two operands of a binary check"""
-    if t in ('dateTime', 'date') and draw(st.integers(0, 2)) == 0:
+    if t in ('dateTime', 'date') and draw(st.integers(0, 5)) < (3 if dense else 2):
         return draw(_boundary_pair(xsd, t, itz))
     a = draw(_value(xsd, yearless=t in ('gMonthDay', 'gDay', 'gMonth', 'time')))
     return a, draw(_second(xsd, a, t))
@@ -258,8 +258,8 @@ def _case_arith(draw):
 @st.composite
 def _case_order(draw):
     xsd = draw(_xsd)
-    t = draw(st.sampled_from(FULL + FULL + FULL + GTYPES))
-    a, b = draw(_pair(xsd, t))
+    t = draw(st.sampled_from(('dateTime', 'date') * 3 + FULL + FULL + GTYPES))
+    a, b = draw(_pair(xsd, t, dense=True))
     c = draw(_second(xsd, draw(st.sampled_from([a, b])), t))
     return {'xsd': xsd, 't': t, 'a': a, 'b': b, 'c': c}
 
@@ -1695,7 +1695,7 @@ def selftest():
 
 
 _PLAN = {  # check: (quick shards, quick n, thorough shards, thorough n)
-    'value': (3, 8000, 3, 110000), 'arith': (4, 6000, 4, 80000), 'order': (3, 6000, 3, 80000),
+    'value': (3, 7000, 3, 100000), 'arith': (4, 5500, 4, 75000), 'order': (3, 6000, 3, 80000),
     'xpath': (5, 2500, 5, 35000), 'duration': (1, 4000, 1, 50000), 'adjhist': (2, 2500, 2, 30000),
 }
 
